@@ -979,7 +979,14 @@ struct Digit {
             --index;
             index += SizeT(number_length - precision);
 
-            roundStringNumber(stream, index, power_increased, round_up);
+            bool above_half = round_up;
+
+            for (SizeT below = started_at; (below < index) && !above_half; ++below) {
+                // Digits under the rounding digit that are not zero put the value above the half.
+                above_half = (storage[below] != DigitUtils::DigitChar::Zero);
+            }
+
+            roundStringNumber(stream, index, power_increased, above_half);
 
             if (is_positive_exp) {
                 const SizeT diff =
@@ -1078,7 +1085,15 @@ struct Digit {
             if (diff <= precision) {
                 if (fraction_length > precision) {
                     index += SizeT(fraction_length - (precision + SizeT{1}));
-                    roundStringNumber(stream, index, power_increased, (round_up | (diff != 0)));
+
+                    bool above_half = (round_up | (diff != 0));
+
+                    for (SizeT below = started_at; (below < index) && !above_half; ++below) {
+                        // Digits under the rounding digit that are not zero put the value above the half.
+                        above_half = (storage[below] != DigitUtils::DigitChar::Zero);
+                    }
+
+                    roundStringNumber(stream, index, power_increased, above_half);
 
                     Char_T       *number = (storage + index);
                     const Char_T *last   = stream.Last();
